@@ -66,6 +66,7 @@ class Check:
         self.samples = []
         self.extra = {}
         self.program = None
+        self.broken_rules = []
 
     def load(self, units=None):
         self.program = facts.load_program(units)
@@ -80,12 +81,22 @@ class Check:
         if len(self.samples) < 12:
             self.samples.append(s)
 
+    def guard(self, fn, *args, **kw):
+        """Run one rule function; an analysis failure inside it (anchor vanished, construct outside the interpreter subset) is recorded
+        and the remaining rules still run.  The check then exits 1 if some other rule found a violation, otherwise 2 (analysis broken)."""
+        from .microai.interp import Unsupported, PathLimit
+        try:
+            return fn(*args, **kw)
+        except (AnalysisBroken, Unsupported, PathLimit) as e:
+            self.broken_rules.append("%s: %s" % (getattr(fn, "__name__", "rule"), e))
+            return None
+
     # ------------------------------------------------------------------
     def finish(self):
         known = [k for k in load_known() if k["property"] == self.prop]
         used_known = []
         violations = []
-        broken = []
+        broken = list(self.broken_rules)
         total = 0
         okc = 0
         evals = 0
